@@ -199,6 +199,23 @@ def replay_case(arg):
                     fail('SensOrderOK', 'composed_after_sort', ctx)
                 if fails:
                     break
+        # ---- a composed filter NESTED in a composed filter, the inner one re-ordered before it is nested: the outer filter scores
+        # the simulated measurements in the order its parts now have (inner block: time 2, time 1; then the rest)
+        if nt >= 3 and not fails:
+            with warnings.catch_warnings():
+                warnings.simplefilter('ignore', RuntimeWarning)
+                inner = chi.ComposedPopulationFilter([make(kind, data[..., 0:1].copy()), make(kind, data[..., 1:2].copy())])
+                inner.sort_times(np.array([1, 0]))
+                outer = chi.ComposedPopulationFilter([inner, make(kind, data[..., 2:].copy())])
+                o_n = np.array([1, 0] + list(range(2, nt)))
+                nv = outer.compute_log_likelihood(sim[..., o_n].copy())
+                ns_, ng = outer.compute_sensitivities(sim[..., o_n].copy())
+            cnt['evaluations'] = cnt.get('evaluations', 0) + 2
+            cnt['nested_composed_filters'] = 1
+            if not (interp.close(nv, v) and interp.close(ns_, v)):
+                fail('PairingOK', 'nested_composed_after_inner_sort', dict(got=[float(nv), float(ns_)], expected=float(v)))
+            elif not interp.close(np.asarray(ng, dtype=float), np.asarray(g, dtype=float)[..., o_n], rtol=1e-8, atol=1e-8):
+                fail('SensOrderOK', 'nested_composed_after_inner_sort', None)
         if not np.array_equal(data_in, data, equal_nan=True):
             fail('NoInputWrite', 'data_modified', None)
     except Exception as e:
